@@ -346,7 +346,7 @@ def fit_knn_models(rng, it, which):
     n = it.n
     if which == "knn":
         ntr = it.ntr
-        opf, X, I = make_knn_model(it, KNNSupervisedOPF, max_k=rng.randint(1, min(3, ntr - 1)))
+        opf, X, I = make_knn_model(it, KNNSupervisedOPF, max_k=rng.randint(1, min(5, ntr - 1)))
         tr = list(range(ntr)); va = list(range(ntr, n))
         # training = first part, validation = last part of the labeled points
         if I is None:
@@ -354,7 +354,11 @@ def fit_knn_models(rng, it, which):
         else:
             opf.fit(X[tr].copy(), np.array([it.labels[i] for i in tr]), X[va].copy(), np.array([it.labels[i] for i in va]), I[tr], I[va])
         return opf, tr
-    opf, X, I = make_knn_model(it, UnsupervisedOPF, min_k=1, max_k=rng.randint(1, min(3, n - 1)))
+    if rng.random() < 0.5 and n >= 5:
+        kk = rng.randint(3, min(5, n - 1))          # force a larger neighbourhood: best_k = kk
+        opf, X, I = make_knn_model(it, UnsupervisedOPF, min_k=kk, max_k=kk)
+    else:
+        opf, X, I = make_knn_model(it, UnsupervisedOPF, min_k=1, max_k=rng.randint(1, min(3, n - 1)))
     opf.fit(X[:n].copy(), np.array(it.labels), None if I is None else I[:n])
     opf.propagate_labels()
     return opf, list(range(n))
